@@ -64,14 +64,14 @@ def conf_payload(kind):
 GOOD = dict(mac="ok", hdr="ok", ver="v2")
 
 
-def authentic(kind, rng, rid, ctxd, alg, dev):
-    """-> (bytes, regions {name: (start, end)}) : the reply with the non-flip deviations of `dev` applied"""
-    a = dict(GOOD)
+def authentic(kind, rng, rid, ctxd, alg, dev, ver=2):
+    """-> (bytes, regions {name: (start, end)}) : the reply with the non-flip deviations of `dev` applied; ver = the client's configured PDU version"""
+    a = dict(GOOD, ver="v%d" % ver)
     if dev["d"] == "otherkey": a["mac"] = "otherkey"
     if dev["d"] == "otheralg": a["mac"] = "otheralg"
     if dev["d"] == "nomac": a["mac"] = "missing"
     if dev["d"] == "nohdr": a["hdr"] = "missing"
-    if dev["d"] == "otherver": a["ver"] = "v1"
+    if dev["d"] == "otherver": a["ver"] = "v%d" % (3 - ver)
     if kind == "aggr":
         doc, level = ctxd["doc"], ctxd["level"]
         case = dict(nch=2, cal=True, anchor="auth", pads=[], viol=[], doc="absent", level="none")
@@ -83,14 +83,14 @@ def authentic(kind, rng, rid, ctxd, alg, dev):
         pub = aggr + 9000
         links = wire.new_cal_chain(rng, src, pub, aggr)
         cal = ksi.cal_chain_tlv(pub, aggr, src.root()[0], links)
-        body = ksi.tlv(0x01, ksi.uint(rid)) + ksi.tlv(0x04, b"") + ksi.tlv(0x12, ksi.uint(pub + 50)) + cal
+        body = ksi.tlv(0x01, ksi.uint(rid)) + ksi.tlv(0x04, b"") + ksi.tlv(0x10 if a["ver"] == "v1" else 0x12, ksi.uint(pub + 50)) + cal      # "last time": 0x10 in v1, 0x12 in v2
         raw = wire.envelope(0x0321, (0x0300, 0x0302), [(0x02, body)], a, alg=alg)
     else:
         t2, t1 = (0x0221, (0x0200, 0x0202)) if kind in ("aggrconf", "aggrpush") else (0x0321, (0x0300, 0x0302))
         inner = ksi.parse_tlvs(conf_payload("aggrconf" if kind == "aggrpush" else kind))[0][3]
         raw = wire.envelope(t2, t1, [(0x04, inner)], a, alg=alg)
     regions = {}
-    if a["ver"] == "v2" and dev["d"] in ("none", "flip"):
+    if a["ver"] == "v%d" % ver and dev["d"] in ("none", "flip"):
         top = ksi.parse_tlvs(raw)[0]; hdr = top[4]
         regions["outerHdr"] = (0, hdr)
         pos = hdr
@@ -126,8 +126,11 @@ class Blocking:
         self.src = None
 
     def start(self, kind):
-        if self.used >= 100 and not getattr(self, "norenew", False):       # keep request ids one octet long: every reply of a case has the same layout
+        if self.used >= 100:       # keep request ids one octet long: every reply of a case has the same layout
+            post = getattr(self, "post", None)
             self.__init__(*self.args)
+            if post:
+                self.post = post; post()
         self.used += 1
         s, rng = self.s, self.rng
         d = {}
@@ -208,6 +211,40 @@ def check_request(chk, raw, kind, transport, login, key, alg, d):
         chk.violation("request:%s:%s:%s" % (bad[0].split()[0], kind, transport), "%s %s request (login %d octets, key %d octets, %s): %s" % (transport, kind, len(login), len(key), PYH[alg], "; ".join(bad)),
                       dict(raw=raw.hex(), login=login.hex(), key=key.hex(), alg=alg))
     return f
+
+
+def check_request_v1(chk, raw, kind, d):
+    """a request of a client configured to PDU version 1: 0x200/0x300 { header, request payload 0x201/0x301, MAC over the raw header and payload elements }"""
+    import hmac as _h
+    try:
+        tag, _, _, body, hdr = ksi.parse_tlvs(raw)[0]
+        parts = ksi.parse_tlvs(body)
+    except Exception as e:
+        chk.violation("request:unparsable:%s:v1" % kind, "the v1 %s request does not parse: %s" % (kind, e), dict(raw=raw.hex())); return None
+    bad = []
+    want = (0x0200, 0x0201) if kind == "aggr" else (0x0300, 0x0301)
+    if tag != want[0] or [t for t, *_ in parts] != [0x01, want[1], 0x1f]:
+        bad.append("structure %x %s" % (tag, [hex(t) for t, *_ in parts]))
+    else:
+        el = lambda i: ksi.tlv(parts[i][0], parts[i][3], nc=parts[i][1], fw=parts[i][2])
+        mac = parts[2][3]
+        if mac[0] not in ksi.HASH or _h.new(wire.KEY, el(0) + el(1), ksi.HASH[mac[0]][0]).digest() != mac[1:]:
+            bad.append("hmac does not verify over header + payload")
+        if ksi.find(parts[0][3], 1)[0].rstrip(b"\0") != wire.LOGIN: bad.append("login id")
+        if kind == "aggr" and ksi.find(parts[1][3], 2)[0] != d["doc"]: bad.append("hash differs")
+        if hdr + len(body) != len(raw): bad.append("trailing bytes after the PDU")
+    if bad:
+        chk.violation("request:%s:%s:v1" % (bad[0].split()[0], kind), "v1 %s request: %s" % (kind, "; ".join(bad)), dict(raw=raw.hex()))
+        return None
+    return dict(rid=int.from_bytes(ksi.find(parts[1][3], 1)[0], "big"), hdr=ksi.tlv(parts[0][0], parts[0][3]), req=ksi.tlv(parts[1][0], parts[1][3]), mac=ksi.tlv(0x1f, parts[2][3]))
+
+
+def splice_v1(kind, reqf, reply, first):
+    """the client's own request reflected: its header, request payload and MAC (authentic under the key) plus the response payload of `reply`"""
+    body = ksi.parse_tlvs(reply)[0][3]
+    resp = [ksi.tlv(t, p2) for t, _, _, p2, _ in ksi.parse_tlvs(body) if t in (0x0202, 0x0302)][0]
+    pl = (reqf["req"] + resp) if first == "request" else (resp + reqf["req"])
+    return ksi.tlv(0x0200 if kind == "aggr" else 0x0300, reqf["hdr"] + pl + reqf["mac"], long=True)
 
 
 def async_start(s, rng, ha, login, key):
@@ -322,22 +359,32 @@ def run(chk, tier, seed):
                 while True:
                     if tr in ("blocking", "http"):
                         oth = c.get("other", "v2")
-                        oth = (oth, kind) if oth == "v1" else oth
+                        ver = c.get("ver", 2)
+                        oth = ("conf-v1", kind) if ver == 1 else (oth, kind) if oth == "v1" else oth
                         if (tr, alg, oth) not in blk:
                             blk.clear(); blk[(tr, alg, oth)] = (Blocking if tr == "blocking" else Http)(s, rng, alg)
-                            if oth != "v2":      # the OTHER service speaks v1; this one stays v2
-                                o2 = s.cmd("PDUVER %d %d" % ((2, 1) if kind == "aggr" else (1, 2)))
-                                if "rc=0" not in o2[-1]:
-                                    raise vlib.CheckError("PDUVER failed: %s" % o2)
-                                blk[(tr, alg, oth)].norenew = True      # never re-created silently with default versions
+                            if oth != "v2":      # the OTHER service speaks v1, this one stays v2 -- or both are configured to v1
+                                def post(vv=((1, 1) if ver == 1 else (2, 1) if kind == "aggr" else (1, 2))):
+                                    o2 = s.cmd("PDUVER %d %d" % vv)
+                                    if "rc=0" not in o2[-1]:
+                                        raise vlib.CheckError("PDUVER failed: %s" % o2)
+                                blk[(tr, alg, oth)].post = post; post()      # re-applied whenever the context is renewed
                         b = blk[(tr, alg, oth)]
                         raw, d, out = b.start(kind)
                         if raw is None:
                             chk.violation("no-request:%s:%s" % (kind, tr), "%s %s sent nothing" % (tr, kind), dict(log=s.log[-10:])); return
-                        if oth != "v2":
-                            check_request(chk, raw, kind, "blocking(other service v1)", wire.LOGIN, wire.KEY, alg, d)
-                        rid = int.from_bytes(wire.request_fields(raw)["payload"].get(1, b""), "big")
-                        reply, regions = authentic(kind, random.Random(cseed), rid, d, alg, dev)
+                        if ver == 1:
+                            reqf = check_request_v1(chk, raw, kind, d)
+                            if reqf is None:
+                                b.finish(b"\x82\x00\x00\x00"); return
+                            rid = reqf["rid"]
+                        else:
+                            if oth != "v2":
+                                check_request(chk, raw, kind, "blocking(other service v1)", wire.LOGIN, wire.KEY, alg, d)
+                            rid = int.from_bytes(wire.request_fields(raw)["payload"].get(1, b""), "big")
+                        reply, regions = authentic(kind, random.Random(cseed), rid, d, alg, dict(dev, d="none") if dev["d"] == "splice" else dev, ver=ver)
+                        if dev["d"] == "splice":
+                            reply = splice_v1(kind, reqf, reply, "request" if (n % 2) else "response")
                         if it is None:
                             it = mutate(reply, regions); first = regions
                         if regions != first:
@@ -386,8 +433,8 @@ def run(chk, tier, seed):
                 one(mut)
             else:
                 def mut1(reply, regions, dd=dev["d"]):
-                    yield ({"none": "nothing deviates", "otherkey": "the MAC was made with another key", "otheralg": "the MAC uses another algorithm than configured",
-                            "otherver": "the reply is a v1 PDU", "nomac": "the MAC is missing", "nohdr": "the header is missing"}[dd], lambda x: x)
+                    yield ({"none": "nothing deviates", "splice": "the PDU is the client's own request (header, payload, MAC) with a forged response payload spliced in", "otherkey": "the MAC was made with another key", "otheralg": "the MAC uses another algorithm than configured",
+                            "otherver": "the reply is a PDU of the other version", "nomac": "the MAC is missing", "nohdr": "the header is missing"}[dd], lambda x: x)
                 one(mut1)
     except netsim.Died as e:
         chk.violation("crash:pdu", "libksi crashed/aborted while handling a PDU\n%s" % str(e)[-2500:], dict(log=s.log[-40:]))
